@@ -776,7 +776,7 @@ def _do_external(run: Run, ext: dict, loop: VLoop) -> None:
             d = h.ctx.to_dict()
             run.trace.snapshots.append({"at_call": len(run.trace.calls), "vtime": loop.time(), "dict": json.loads(json.dumps(d)),
                                         "stream_len": len(run.trace.stream),
-                                        "steps_len": len(run.trace.steps)})
+                                        "steps_len": len(run.trace.steps), "remaining": [dict(x) for x in run.externals]})
         except Exception as e:
             run.trace.notes.append(f"snapshot failed: {type(e).__name__}: {e}")
     elif op == "snapshot_stop":
